@@ -31,7 +31,7 @@ def run(chk, tier):
     chk.configs.add("default")
     from props import c09
     chk.guarded(c09.r_write_hundreds, P, tier)
-    for r in (r_helpers, r_specifiers, r_composites, r_pads, r_numeric_writers, r_wallclock, r_fraction_base, r_offset_base, r_write_n_cells, r_results_consumed, r_offset_writer_map, r_two_digit_writer_map, r_absint):
+    for r in (r_helpers, r_specifiers, r_composites, r_pads, r_numeric_writers, r_wallclock, r_fraction_base, r_offset_base, r_write_n_cells, r_results_consumed, r_offset_writer_map, r_two_digit_writer_map, r_offset_items, r_absint):
         chk.guarded(r, P, tier)
     chk.assume("the rendered text for each value (week-number formulas, 12-hour clock values, name lookup, offset rounding) is not decided; the documented table is specs/tables/strftime_spec.py")
     return {
@@ -527,3 +527,44 @@ def r_two_digit_writer_map(chk, P, tier):
         elif bad is None:
             bad = ((v, "write_one"), got, str(v))
     chk.expect(bad is None, "digits", "write_two%s writes `%s`, expected `%s`" % (bad or ((), "", "")), loc=P.loc(base + "write_two"))
+
+
+def r_offset_items(chk, P, tier):
+    """which offset format each item of a format string selects: format_fixed folded with the call of OffsetFormat::format logged, for a value carrying the offset +05:30 and
+    each of the six offset items: %z -> hhmm, %:z -> hh:mm, %::z -> hh:mm:ss, %:::z -> hh, and the two Z forms (same as %z / %:z with `Z` for zero), always zero padded, and the
+    offset handed over is the bound one"""
+    from finmap import Folder, show, Unknown, _opt
+    chk.rule("TBL.offset_items", "each offset item selects its documented OffsetFormat (precision, colons, Z, zero padding) and passes the bound offset", floor=6)
+    DF = "format::formatting::DelayedFormat"
+    fx = [v["name"] for v in P.adts["format::Fixed"]["variants"]]
+    log = []
+    OKU = ("agg", "adt", "std::result::Result", "Ok", (("agg", "tuple", None, None, (), None),), 0)
+
+    def eff(name, a):
+        log.append((show(a[0]), show(a[2]) if len(a) > 2 else None))
+        return OKU
+    fo = Folder(P, max_depth=8, effects=eff, effects_names=lambda n: n.endswith("<impl format::OffsetFormat>::format"))
+    names = [f["name"] for f in P.adts[DF]["variants"][0]["fields"]]
+    off = ("agg", "adt", "offset::fixed::FixedOffset", "FixedOffset", (("const", 19800),), 0)
+    vals = {"date": _opt(False), "time": _opt(False), "off": _opt(True, ("agg", "tuple", None, None, (("const", "IST"), off), None))}
+    self_ = ("agg", "adt", DF, "DelayedFormat", tuple(vals.get(n, ("const", n)) for n in names), 0)
+    want = {"TimezoneOffset": ("Minutes", False, False), "TimezoneOffsetColon": ("Minutes", True, False), "TimezoneOffsetDoubleColon": ("Seconds", True, False),
+            "TimezoneOffsetTripleColon": ("Hours", False, False), "TimezoneOffsetZ": ("Minutes", False, True), "TimezoneOffsetColonZ": ("Minutes", True, True)}
+    for item, (prec, colon, zulu) in want.items():
+        if item not in fx:
+            raise AnchorLost("Fixed::" + item)
+        spec = ("ref", ("agg", "adt", "format::Fixed", item, (), fx.index(item)))
+        del log[:]
+        fo._memo.clear()
+        fo._eff_done.clear()
+        try:
+            fo.call("format::formatting::DelayedFormat::<I>::format_fixed", [("ref", self_), ("ref", ("const", "w")), spec])
+            got = list(log)
+        except Unknown as e:
+            got = "unknown: %s" % e
+        ok = isinstance(got, list) and len(got) == 1 and isinstance(got[0][0], tuple) and len(got[0][0]) == 5
+        if ok:
+            f, o = got[0]
+            ok = (f[1] == "OffsetPrecision::" + prec and (f[2] == "Colons::Colon") == colon and f[3] is zulu and f[4] == "Pad::Zero" and o == ("FixedOffset::FixedOffset", 19800))
+        chk.expect(ok, item, "Fixed::%s formats the offset with %s (expected precision %s, colons %s, Z for zero %s, zero padded, the bound offset)" % (item, got, prec, colon, zulu),
+                   loc=P.loc("format::formatting::DelayedFormat::<I>::format_fixed"))
